@@ -8,3 +8,5 @@ pub mod sigref;
 pub mod masterfile;
 pub mod zone;
 pub mod canon;
+pub mod denial;
+pub mod tsig;
